@@ -34,6 +34,10 @@ def generate(rng, tier='quick', stack=None, **kw):
     for i in range(n):
       k = rng.random()
       T = rng.choice([None, 0.05, 0.25, 1.0])
+      if rng.random() < 0.15:
+        # a deadline that expires on the way to the transport (e.g. while the
+        # request sat in a pool queue): a few microseconds
+        T = rng.choice([2e-6, 4e-6, 8e-6, 2e-5])
       if k < 0.35 and T:
         svc = {'kind': 'drop'}                      # times out -> reconnect
       elif k < 0.5 and T:
